@@ -12,6 +12,7 @@ void gh_acquired(uint32_t acq0, uint32_t obs_before) {
 }
 void gh_released(void) { __CPROVER_atomic_begin(); g_writers_active--; __CPROVER_atomic_end(); }
 void gh_set_obsolete(void) { __CPROVER_atomic_begin(); g_obsolete = 1; __CPROVER_atomic_end(); }
+void t_reader_then_writer(void); void t_writer_then_reader(void); void t_writer_twice(void); void t_writer_then_obsolete(void);
 void t_reader_check(void); void t_reader_unlock(void); void t_writer(void); void t_writer_unlock(void); void t_writer_obsolete(void); void t_rehydrate(void);
 #ifdef __CPROVER__
 #define SPAWN1(f) __CPROVER_ASYNC_1: f()
@@ -40,3 +41,7 @@ MIX3(mix_w_w_wo, t_writer, t_writer_unlock, t_writer_obsolete)
 MIX3(mix_rc_ru_w, t_reader_check, t_reader_unlock, t_writer)
 MIX3(mix_rh_w_w, t_rehydrate, t_writer, t_writer_unlock)
 MIX3(mix_rh_w_wo, t_rehydrate, t_writer, t_writer_obsolete)
+MIX2(mix2_rw_ww, t_reader_then_writer, t_writer_twice)
+MIX2(mix2_wr_wr, t_writer_then_reader, t_writer_then_reader)
+MIX2(mix2_rw_wo, t_reader_then_writer, t_writer_then_obsolete)
+MIX2(mix2_ww_wo, t_writer_twice, t_writer_then_obsolete)
